@@ -50,8 +50,17 @@ def check_one(lnt, text, add, res):
             continue
         tree = variant.tree
         if tree is None:
-            if not [v for v in variant.parsing_violations if v.rule_code() == "PRS"]:
+            vp = [v for v in variant.parsing_violations if v.rule_code() == "PRS"]
+            if not vp:
                 add("no_tree_no_prs", {}, {"variant": vi})
+            # A missing tree means every token was discarded. That is the documented outcome only for
+            # unbalanced brackets and for the configured depth / node limits; any other reason (e.g. the
+            # parser's own completeness check tripping) is code being lost, however it is reported.
+            elif not any(
+                v.desc().startswith(("Couldn't find closing bracket", "Found unexpected end bracket", "Maximum parse depth exceeded", "Maximum parse node count exceeded"))
+                for v in vp
+            ):
+                add("no_tree_tokens_discarded", {"reason": vp[0].desc().split(":")[0][:40]}, {"variant": vi, "prs": vp[0].desc()[:200]})
             res["stats"]["no_tree"] = res["stats"].get("no_tree", 0) + 1
             continue
         want = [key(t) for t in toks if not t.is_meta]
